@@ -179,7 +179,16 @@ Definition in_domain (k : tcase) : bool :=
   (if op =? 4 then plain_type v (canon_type (k_ty k)) && negb (is_alias (k_ty k))
    else if op =? 5 then
      (plain_type v (canon_type (k_ty k)) || str_eqb (k_ty k) t_power) && negb (is_alias (k_ty k))
-   else if op =? 15 then false
+   else if op =? 15 then
+     notifications_typed v (k_content k)
+     && match rules_level uid_ok v room_creator (k_content k) (k_actor k) with
+        | Some sl => (k_n k <=? sl)%Z
+        | None => false
+        end
+     && negb (oZ_eqb (match level_map v uid_ok (power_ev room_creator (k_content k)) s!"users" with
+                      | Some (Some m) => lookup (k_target k) m
+                      | _ => None
+                      end) (Some (k_n k)))
    else match action_of k with
         | Some a => applies a (k_actor k) (k_target k) (k_tm k)
         | None => true
